@@ -360,7 +360,7 @@ def construct_random_cases(ctx):
     R = routes()
     names = sorted(R)
     kinds = ['int', 'str', 'bool', 'float', 'tuple', 'date', 'mixed', 'npint']
-    for _ in range(ctx.n(150, 3000)):
+    for _ in range(ctx.n(120, 3000)):
         kind = ctx.rng.choice(kinds)
         n = ctx.rng.choice([0, 1, 2, 3, 4, 5, 6, 8, 12])
         dup = ctx.rng.random() < 0.3
@@ -628,13 +628,13 @@ def go_small_cases(ctx):
         for n in range(1, maxlen + 1):
             for ops in itertools.product(single, repeat=n):
                 yield from history_case(ctx, init, list(ops), 'api:go-small')
-        for vs in itertools.product(alphabet[:5], repeat=2):
+        for vs in itertools.product(alphabet[:5] if ctx.tier == 'thorough' else alphabet[:3], repeat=2):
             yield from history_case(ctx, init, [('extend', list(vs))], 'api:go-small')
 
 
 def go_random_cases(ctx):
     pool = POOLS['int'][:8] + POOLS['str'][:4] + POOLS['tuple'][:3] + [1.0, 2.0, 3.0, 0.5, True, False, None, D0] + list(range(0, 14))
-    for _ in range(ctx.n(120, 2500)):
+    for _ in range(ctx.n(90, 2500)):
         r = ctx.rng.random()
         if r < 0.4:
             init = ('auto', ctx.rng.choice([0, 1, 2, 3, 5]))
@@ -734,7 +734,7 @@ def derive_cases(ctx):
     import copy
     import pickle
     import static_frame as sf
-    for _ in range(ctx.n(60, 900)):
+    for _ in range(ctx.n(40, 900)):
         kind = ctx.rng.choice(['int', 'str', 'mixed', 'tuple', 'float', 'int', 'str'])
         n = ctx.rng.choice([1, 2, 3, 4, 6, 9])
         labels = draw_labels(ctx.rng, kind, n, False)
@@ -968,7 +968,7 @@ def hier_random_cases(ctx):
     R = hier_routes()
     names = sorted(R)
     pools_by = [['a', 'b', 'c', 'd'], [1, 2, 3, 'x'], [True, 'y', 5, 0.5], [10, 20, 30]]
-    for _ in range(ctx.n(100, 2000)):
+    for _ in range(ctx.n(70, 2000)):
         depth = ctx.rng.choice([2, 2, 3, 3, 4])
         pools = pools_by[:depth]
         labels = random_tree_labels(ctx.rng, depth, pools)[:12]
@@ -1013,7 +1013,7 @@ def hier_derive_cases(ctx):
     whether that table must be rejected (not a tree in that order / duplicates) or be an exact bijection.'''
     import static_frame as sf
     pools_by = [['a', 'b', 'c'], [1, 2, 3], ['x', 'y']]
-    for _ in range(ctx.n(60, 900)):
+    for _ in range(ctx.n(40, 900)):
         depth = ctx.rng.choice([2, 2, 3])
         table = random_tree_labels(ctx.rng, depth, pools_by[:depth])[:9]
         n = len(table)
